@@ -180,7 +180,11 @@ func (e *Exec) step(fr *frame, st *State, in ssa.Instruction, b *ssa.BasicBlock)
 		fr.vals[x] = mkSlice(ref, tInt(0), ln, cp)
 		return true
 	case *ssa.MakeChan:
-		fr.vals[x] = e.allocRef(st, "chan")
+		ref := e.allocRef(st, "chan")
+		fr.vals[x] = ref
+		e.ghostSorts["ghost_closed"] = SBool
+		arr := e.heapComp(st, "G.ghost_closed", SInt, arraySort(SInt, SBool))
+		e.setHeap(st, "G.ghost_closed", tStore(arr, ref, tFalse))
 		return true
 	case *ssa.MakeClosure:
 		var bs []Value
@@ -893,19 +897,60 @@ func (e *Exec) next(fr *frame, st *State, x *ssa.Next) bool {
 	return true
 }
 
+// Channels (D2/D3): other goroutines are not interleaved.  A receive yields an arbitrary well-typed
+// value, a send has no effect on the state under verification, select chooses any of its cases;
+// the only channel state tracked is the ghost flag ghost_closed(ch) (close of a closed channel and
+// send on a closed channel are safety obligations).
+func (e *Exec) chanClosed(st *State, ch Term) Term {
+	e.ghostSorts["ghost_closed"] = SBool
+	arr := e.heapComp(st, "G.ghost_closed", SInt, arraySort(SInt, SBool))
+	return tSelect(arr, ch, SBool)
+}
+
 func (e *Exec) send(fr *frame, st *State, x *ssa.Send) bool {
-	e.unsupported("channel send at %s", e.pos(x.Pos()))
+	ch := e.term(fr, st, x.Chan)
+	e.trusted("D3: channel operations: a receive yields an arbitrary value, a send does not change the verified state, select picks any case; goroutine interleaving is not modelled")
+	e.oblige(st, "safe", "safe.send@closed", tNot(e.chanClosed(st, ch)), e.pos(x.Pos()))
 	return true
 }
 
 func (e *Exec) recv(fr *frame, st *State, x *ssa.UnOp) bool {
-	e.unsupported("channel receive at %s", e.pos(x.Pos()))
-	fr.vals[x] = e.smt.fresh("recv", e.ti.sortOf(x.Type()))
+	e.trusted("D3: channel operations: a receive yields an arbitrary value, a send does not change the verified state, select picks any case; goroutine interleaving is not modelled")
+	var et types.Type = x.Type()
+	if x.CommaOk {
+		et = x.Type().(*types.Tuple).At(0).Type()
+	}
+	v := e.smt.fresh("recv", e.ti.sortOf(et))
+	e.assume(st, e.wellTypedDeep(st, et, v))
+	if x.CommaOk {
+		fr.vals[x] = &Tuple{[]Value{v, e.smt.fresh("recvok", SBool)}}
+	} else {
+		fr.vals[x] = v
+	}
 	return true
 }
 
 func (e *Exec) selectInstr(fr *frame, st *State, x *ssa.Select) bool {
-	e.unsupported("select at %s", e.pos(x.Pos()))
+	e.trusted("D3: channel operations: a receive yields an arbitrary value, a send does not change the verified state, select picks any case; goroutine interleaving is not modelled")
+	idx := e.smt.fresh("selidx", SInt)
+	lo := int64(0)
+	if !x.Blocking {
+		lo = -1
+	}
+	e.assume(st, tAnd(tLe(tInt(lo), idx), tLt(idx, tInt(int64(len(x.States))))))
+	vals := []Value{idx, e.smt.fresh("selok", SBool)}
+	for _, sc := range x.States {
+		if sc.Dir == types.RecvOnly {
+			et := sc.Chan.Type().Underlying().(*types.Chan).Elem()
+			v := e.smt.fresh("selrecv", e.ti.sortOf(et))
+			e.assume(st, e.wellTypedDeep(st, et, v))
+			vals = append(vals, v)
+		} else {
+			ch := e.term(fr, st, sc.Chan)
+			e.oblige(st, "safe", "safe.send@closed", tNot(e.chanClosed(st, ch)), e.pos(x.Pos()))
+		}
+	}
+	fr.vals[x] = &Tuple{vals}
 	return true
 }
 
